@@ -1,0 +1,67 @@
+//go:build verif
+// +build verif
+
+package js_printer
+
+import "github.com/evanw/esbuild/internal/js_ast"
+
+// Thin wrappers (no logic) used by the verification harness in /verif. Each
+// one runs a single unexported printer method on a bare printer that is
+// initialised the way Print initialises it, with "prefix" as the bytes that
+// are already in the output buffer.
+
+func verifBarePrinter(options Options, prefix []byte, withNesting int) *printer {
+	return &printer{
+		options:              options,
+		js:                   append([]byte{}, prefix...),
+		withNesting:          withNesting,
+		stmtStart:            -1,
+		exportDefaultStart:   -1,
+		arrowExprStart:       -1,
+		forOfInitStart:       -1,
+		prevOpEnd:            -1,
+		needSpaceBeforeDot:   -1,
+		prevRegExpEnd:        -1,
+		noLeadingNewlineHere: -1,
+	}
+}
+
+const VerifPrintQuotedAllowBacktick = uint8(printQuotedAllowBacktick)
+const VerifPrintQuotedNoWrap = uint8(printQuotedNoWrap)
+
+func VerifPrintQuotedUTF16(options Options, prefix []byte, data []uint16, flags uint8) []byte {
+	p := verifBarePrinter(options, prefix, 0)
+	p.printQuotedUTF16(data, printQuotedFlags(flags))
+	return p.js
+}
+
+func VerifPrintUnquotedUTF16(options Options, prefix []byte, data []uint16, quote rune, flags uint8) []byte {
+	p := verifBarePrinter(options, prefix, 0)
+	p.printUnquotedUTF16(data, quote, printQuotedFlags(flags))
+	return p.js
+}
+
+func VerifPrintIdentifierUTF16(options Options, prefix []byte, name []uint16) []byte {
+	p := verifBarePrinter(options, prefix, 0)
+	p.printIdentifierUTF16(name)
+	return p.js
+}
+
+func VerifPrintIdentifier(options Options, prefix []byte, name string) []byte {
+	p := verifBarePrinter(options, prefix, 0)
+	p.printIdentifier(name)
+	return p.js
+}
+
+// Returns the output and whether needSpaceBeforeDot points at its end.
+func VerifPrintNonNegativeFloat(options Options, prefix []byte, absValue float64) ([]byte, bool) {
+	p := verifBarePrinter(options, prefix, 0)
+	p.printNonNegativeFloat(absValue)
+	return p.js, p.needSpaceBeforeDot == len(p.js)
+}
+
+func VerifPrintNumber(options Options, prefix []byte, value float64, level js_ast.L, withNesting int) ([]byte, bool) {
+	p := verifBarePrinter(options, prefix, withNesting)
+	p.printNumber(value, level)
+	return p.js, p.needSpaceBeforeDot == len(p.js)
+}
